@@ -21,6 +21,9 @@
     todb <name> -> <prev> <sig> <chash> <content|none>                     (to_database_tuple)
     create <name> <prevname> <content> <sig> -> <prev> <chash> <content>   (Token.create; registers <name>)
 
+    init <name> <prev> <content|none> <content_hash|none> <sig> -> ok <chash> <content|none> | error   (Token.__init__)
+    pnew <cap|default> | psubst <hex> | pcred <name> | prestart -> <state> D=<rows>   (PseudonymManager + database)
+
   several trees of different keys (the tokens registered with `tok` are shared by all of them):
     vk <key> <msg> <sig> <0|1>                  keyed signature table
     view <vname> <key> <cap|default>            fresh TokenTree(public_key=key); genesis = hash(key) (send `h`)
@@ -40,6 +43,7 @@ structure St where
   cap : Nat := 100
   toks : List (String × Token) := []
   tree : Tree := Tree.empty
+  pseudo : Pseudo := Pseudo.fresh
   vkTab : List (Bytes × Bytes × Bytes × Bool) := []
   views : List (String × View) := []
 
@@ -183,6 +187,33 @@ def step (s : St) (toks : List String) : St × String :=
       ({ s with toks := (n, t) :: s.toks.filter (fun e => e.1 != n) },
         toHex t.prev ++ " " ++ toHex t.chash ++ " " ++ showContent t.content)
     | _, _, _ => bad
+  | ["init", n, p, ct, ch, sg] =>       -- Token(prev, content=…, content_hash=…, signature=…)
+    match ofHex? p, content? ct, content? ch, ofHex? sg with
+    | some p, some ct, some ch, some sg =>
+      match Token.init C p ct ch sg with
+      | some t => ({ s with toks := (n, t) :: s.toks.filter (fun e => e.1 != n) },
+                   "ok " ++ toHex t.chash ++ " " ++ showContent t.content)
+      | none => (s, "error")
+    | _, _, _, _ => bad
+  | ["pnew", c] =>                      -- a PseudonymManager on an empty database
+    match (if c == "default" then some defaultCap else c.toNat?) with
+    | some c => ({ s with cap := c, pseudo := Pseudo.fresh }, "ok")
+    | none => bad
+  | ["psubst", hx] =>
+    match ofHex? hx with
+    | some b =>
+      let p := s.pseudo.substantiate C s.g s.cap b
+      ({ s with pseudo := p }, showState C p.tree ++ " D=" ++ toString p.db.length)
+    | none => bad
+  | ["pcred", n] =>
+    match find n with
+    | some t =>
+      let p := s.pseudo.addCredential C s.g s.cap t
+      ({ s with pseudo := p }, showState C p.tree ++ " D=" ++ toString p.db.length)
+    | none => bad
+  | ["prestart"] =>
+    let p := s.pseudo.restart C
+    ({ s with pseudo := p }, showState C p.tree ++ " D=" ++ toString p.db.length)
   | ["state"] => (s, showState C s.tree)
   | ["verify", n, d] =>
     match find n, depth? d with
